@@ -145,7 +145,7 @@ func suiteBanner(e *vh.Env) {
 			ops = append(ops, hop{kind: "S", k: "Content-Type", v: ct})
 		}
 		if rng.Chance(12) {
-			ops = append(ops, hop{kind: "S", k: "Content-Disposition", v: rng.Pick([]string{"attachment; filename=x", "inline", "ATTACHMENT"})})
+			ops = append(ops, hop{kind: "S", k: "Content-Disposition", v: rng.Pick([]string{"attachment; filename=x", "inline", "ATTACHMENT", "attachment; filename=monthly report.html", "attachment; filename=r\u00e9sum\u00e9.html", "Attachment;", "attachment; filename=\"a.html\"; size"})})
 		}
 		if rng.Chance(30) {
 			ops = append(ops, hop{kind: "A", k: "Set-Cookie", v: "a=b"}, hop{kind: "A", k: "Set-Cookie", v: "c=d"})
